@@ -169,6 +169,45 @@ def check(rep, ctx):
             if other is not None and len(S.top_level(other)) == 1:
                 ev("load_response_from_request" if m["type"] == "request" else "load_request_from_response", [cls_v],
                    I.entity_class(S.top_level(other)[0]["key"]), (tops[0]["key"],))
+    # near misses: what does not exist is reported with the documented error (E2, concrete arguments) -----------------------------
+    R_X = rep.rule("C09-miss", "a lookup of something that does not exist raises the documented error: UnknownAPIKey for an unknown key, "
+                   "UnknownEntity for a known API with a version (or name) that does not exist -- evaluated for every API at the versions "
+                   "just outside its range, at version == key, and at unknown keys", floor=700,
+                   necessary_because="an error path that tells key from version by comparing the missing dict key with api_key reports "
+                                     "(18, 18) as an unknown API key")
+
+    def ev_miss(fname, args, want_exc, what):
+        f = funcs.get(fname)
+        try:
+            got = I.call(f, args, {}, Run(), None)
+            res = f"returns {getattr(got, 'ref', getattr(got, 'name', got))}"
+        except Raised as r:
+            res = short_exc(r.cls).split(":")[-1].split(".")[-1]
+        except Limit as e:
+            raise AnalysisError(f"kio.index.{fname} not understood: {e}")
+        rep.check(R_X, res == want_exc, construct=f"kio.index:{fname}", stmt=f"{fname}{what}",
+                  message=f"{fname}{what} -> {res}; nothing of that kind exists, the documented outcome is {want_exc}",
+                  file=src.rel, line=f.node.lineno, instance=f"{fname}|{what}")
+    versions_of = {}
+    for mname, m in S.modules.items():
+        if m["type"] in ("request", "response") and m["api"] in key_of_api:
+            versions_of.setdefault(m["api"], set()).add(m["version"])
+    req, resp = members["request"], members["response"]
+    for api, vs in sorted(versions_of.items()):
+        k = key_of_api[api]
+        for v in sorted({min(vs) - 1, max(vs) + 1, k, k + 1, 1000} - vs):
+            ev_miss("load_payload_module", [k, v, req], "UnknownEntity", (k, v, "request"))
+            ev_miss("load_request_schema", [k, v], "UnknownEntity", (k, v))
+            ev_miss("load_response_schema", [k, v], "UnknownEntity", (k, v))
+            ev_miss("load_entity_schema", [api, v, resp], "UnknownEntity", (api, v, "response"))
+    known_keys = set(key_of_api.values())
+    for k in sorted({-1, max(known_keys) + 1, 1000, 12345} - known_keys):
+        for v in (0, k, max(0, k)):
+            ev_miss("load_payload_module", [k, v, req], "UnknownAPIKey", (k, v, "request"))
+            ev_miss("load_request_schema", [k, v], "UnknownAPIKey", (k, v))
+            ev_miss("load_response_schema", [k, v], "UnknownAPIKey", (k, v))
+    ev_miss("load_entity_schema", ["no_such_api", 0, req], "UnknownEntity", ("no_such_api", 0, "request"))
+    ev_miss("load_entity_module", ["no_such_api", 0, req], "UnknownEntity", ("no_such_api", 0, "request"))
     if deferred and not rep.findings:
         raise AnalysisError(deferred[0])
     rep.extra.update(index_entries=sum(len(tm) for vm in snm.values() for tm in vm.values()), api_keys=len(akm))
